@@ -60,6 +60,9 @@ def prepare_files(d):
     (d / "bad.inv").write_text("junk")
     (d / "ok.inv").write_bytes(make_v2("P", "1", ["x std:label -1 a.html#$ -"]))
     (d / "self.md").write_text("before\n\n```{include} self.md\n```\n")
+    (d / "self2.md").write_text("before\n\n```{include} adir/../self2.md\n```\n")
+    (d / "adir" / "inc3.md").write_text("```{include} ../inc4.md\n```\n")
+    (d / "inc4.md").write_text("```{include} adir/inc3.md\n```\n")
     (d / "m1.md").write_text("```{include} m2.md\n```\n")
     (d / "m2.md").write_text("```{include} m1.md\n```\n")
     (d / "fm.md").write_text("---\na: *x\n---\nbody\n")
@@ -145,6 +148,8 @@ F = [
     ("```mermaid\ng\n```\n\n```note\nn\n```\n\n```py\nc\n```\n", False), ("\\\n", False), ("a\\\nb  \nc\n", False), ("&nbsp; &#0; &#x110000; &bogus;\n", False),
     ("<http://x> <mailto:a@b> www.x.com\n", False), ("1. a\n   1. b\n      - c\n        > d\n", False), ("    code\n\n\tTab\n", False), ("# \n\n#\n", False), ("[a\n", False),
     ("```\n", False), ("::::\n", False), ("$$\n", False), ("{#i}\n# H\n\n{#i}\npara\n", False), ("[^a]: x\n\n(a)=\npara\n", False), ("```{note}\n:name: a\nx\n```\n\n[^a]: y\n", False),
+    ("```{note}\n:class: |\u00b2\n tip\n```\n", False), ("```{note}\n:class: >\u2460+\n tip\n```\n", False), ("---\na: [2020-01-01]\nb: {c: !!binary aGk=}\nd: !!set {x, y}\n---\n", False),
+    ("x[^\u00b2] y[^1] z[^a]\n\n[^\u00b2]: two\n\n[^1]: one\n\n[^a]: named\n", False), ("```{include} adir/../self2.md\n```\n", True), ("```{include} adir/inc3.md\n```\n", True),
     ("```{include} self.md\n```\n", True), ("```{include} m1.md\n```\n", True), ("```{include} " + "n" * 300 + ".md\n```\n", True), ("```{include} a\x00b.md\n```\n", True),
 ]
 
@@ -335,7 +340,7 @@ class ConfigSystem(System):
         return Obs(digest=(tuple(sub), m, nexc), violations=viol[:6], transitions=n, validated=n)
 
 
-ANSWERS = ["ok", "missing", "directory", "undecodable", "denied", "toolong", "nul", "self", "mutual", "emptyfile"]
+ANSWERS = ["ok", "missing", "directory", "undecodable", "denied", "toolong", "nul", "self", "mutual", "emptyfile", "self-dotdot", "mutual-dotdot"]
 CONSTRUCTS = ["include", "include-literal", "include-code", "inventory"]
 
 
@@ -376,7 +381,8 @@ class FaultSystem(System):
     def path_for(self, ans, inv=False):
         ext = ".inv" if inv else ".md"
         return {"ok": "ok" + ext, "missing": "nope" + ext, "directory": "adir", "undecodable": "bin.md", "denied": "denied" + ext, "toolong": "n" * 300 + ext,
-                "nul": "a\x00b" + ext, "self": "self.md", "mutual": "m1.md", "emptyfile": "empty.md"}[ans]
+                "nul": "a\x00b" + ext, "self": "self.md", "mutual": "m1.md", "emptyfile": "empty.md",
+                "self-dotdot": "adir/../self2.md", "mutual-dotdot": "adir/inc3.md"}[ans]
 
     def run(self, case):
         import builtins
@@ -387,7 +393,7 @@ class FaultSystem(System):
         faulty = False
         for j, (c, a) in enumerate(case):
             cons, ans = CONSTRUCTS[c], ANSWERS[a]
-            faulty = faulty or (ans not in ("ok", "emptyfile") and not (ans in ("self", "mutual") and cons != "include"))
+            faulty = faulty or (ans not in ("ok", "emptyfile") and not (ans in ("self", "mutual", "self-dotdot", "mutual-dotdot") and cons != "include"))
             p = self.path_for(ans, inv=(cons == "inventory"))
             if cons == "include":
                 text += f"```{{include}} {p}\n```\n\n"
